@@ -175,6 +175,8 @@ def run(res, a):
     cov["machines"] = len(reqs)
     cov["machines_rejected_by_the_generator"] = build_errs
     cov["error_class_histogram"] = classes
+    cov["programs"] = len(reqs) - build_errs
+    cov["disagreements_checked"] = sum(classes.values())
     cov["samples"] = reqs[:1]
     seen = set()
     for text, q, gen in viol:
@@ -186,4 +188,4 @@ def run(res, a):
         res.violation("C18 " + text, {"machine": q, "class": gen})
     if failed and not viol:
         res.violation("C18 proof obligation no longer checks: %s" % failed, {"obligation": failed}, nofail=True)
-    return res.finish("translation_validation" if False else "proof")
+    return res.finish("translation_validation")
